@@ -468,8 +468,19 @@ def check(P, R):
             R.ob('C19.b', ff.fq, None, is_const(fmt, None), text=f'filter {name}: no converter, no formatter', detail='' if is_const(fmt, None) else
                  f'filter {name} formats values it does not convert', nontrivial=False, key_extra=str(name))
             continue
-        n_conv += 1
         cname = dotted(conv)
+        # a two-argument "converter" (matched text, match object) selects one of the matched texts - it does not change the type of the value, so there is nothing
+        # for a formatter to turn back
+        cf_ = None
+        if isinstance(conv, ast.Name):
+            cands_ = [x for x in P.all_funcs() if x.name == conv.id and x.module is ff.module and not isinstance(x.node, ast.Lambda)]
+            cf_ = cands_[0] if len(cands_) == 1 else None
+        if cf_ is not None and len(cf_.params) == 2 and is_const(fmt, None):
+            typed = [c_ for c_ in walk_shallow(cf_.node) if isinstance(c_, ast.Call) and dotted(c_.func) in ('int', 'float', 'complex', 'bool', 'Decimal', 'bytes')]
+            R.ob('C19.b', ff.fq, None, not typed, text=f'filter {name}: {cname}(matched, match) selects a matched text, no formatter needed', detail='' if not typed else
+                 f'{cname} converts the selected text with `{short(typed[0])}` but the filter has no formatter', nontrivial=False, key_extra=str(name))
+            continue
+        n_conv += 1
         flam = as_lambda(P, ff.module, fmt)
         ok = flam is not None and len(flam[0]) >= 1
         det = f'filter {name} converts with {cname} but has no formatter: url() would insert the Python object'
